@@ -125,6 +125,22 @@ func Battery(between func()) (digest string, disagreement string) {
 			fmt.Fprintf(h, "G%d|%v|%v|%x\n", pi, e.err != nil, e.pan != nil, b[:e.n])
 		}
 	}
+	// a chain of six distinct static struct types, with a value reaching the last level
+	{
+		src := universe.DeepValue()
+		sz := size(src)
+		b := make([]byte, 256)
+		e := enc(b, src)
+		var back universe.Deep1
+		var d callRes
+		if e.err == nil && e.pan == nil {
+			d = dec(append([]byte{}, b[:e.n]...), &back)
+		}
+		if sz.pan != nil || e.pan != nil || e.err != nil || d.pan != nil || d.err != nil || sz.n != e.n || d.n != e.n || !reflect.DeepEqual(&back, src) {
+			disagreement = fmt.Sprintf("deep chain: size %v encode %v decode %v, round trip equal=%v", sz, e, d, reflect.DeepEqual(&back, src))
+		}
+		fmt.Fprintf(h, "deep|%d|%x|%d\n", sz.n, b[:e.n], d.n)
+	}
 	runtime.KeepAlive(types)
 	return hex.EncodeToString(h.Sum(nil)[:16]), disagreement
 }
